@@ -127,7 +127,13 @@ func reqBound(r Req) time.Duration {
 	if r.Result.StallAtRow > 0 {
 		b += 31 * time.Second
 	}
-	return 3*b + 40*time.Second
+	// a request may read its result set more than once: a metric query issues follow-up statements, a TraceQL request
+	// above the complexity threshold executes its plan once per portion
+	k := time.Duration(3)
+	if r.Result.Complexity > 0 {
+		k += 2 * time.Duration(r.Result.Complexity/10000000+1)
+	}
+	return k*b + 40*time.Second
 }
 
 func (st *runState) body(ri *simcheck.RunInfo) {
@@ -428,6 +434,21 @@ func (st *runState) finish(ri *simcheck.RunInfo, sim *simrt.Sim, t0 time.Time, t
 		for _, s := range r.Stmts {
 			if s.Aborted {
 				ri.Probes["rows-closed-before-end"]++
+			}
+		}
+		// the row limit is reached early: the scan behind an in-process pipeline must stop soon after (the SQL of
+		// such a query carries no LIMIT; cancelling the context is the only thing that ends the work)
+		if lim, err := strconv.Atoi(r.Req.Limit); err == nil && lim > 0 && (r.Req.Kind == "query_range") && r.Status == 200 &&
+			r.Req.CancelUs == 0 && !r.Req.NoDB && everyRowPasses(r.Req.Query) && r.Req.Result.ErrAtRow == 0 && r.Req.Result.StallAtRow == 0 && !r.Req.Result.QueryErr {
+			total := r.Req.Result.Series * r.Req.Result.RowsPer
+			for _, s := range r.Stmts {
+				if s.Class == "data" && len(s.Cols) >= 3 && total >= 4*lim+2000 {
+					ri.Probes["limit-reached-early"]++
+					if s.Served > lim+(total-lim)/2 {
+						add("C12", "work-continues-after-limit", "the scan goes on although the row limit was reached: "+classOfQuery(r.Req.Query),
+							fmt.Sprintf("req%d %s: limit %d, the database holds %d matching rows; %d rows were fetched before the request ended (no stage drops rows)", r.ID, r.Path, lim, total, s.Served))
+					}
+				}
 			}
 		}
 	}
@@ -893,4 +914,18 @@ func siteOnly(s string) string {
 		return s[i:]
 	}
 	return s
+}
+
+// everyRowPasses: a log query whose in-process pipeline keeps every row (one extraction or formatting stage, no filter).
+func everyRowPasses(q string) bool {
+	q = strings.TrimSpace(q)
+	i := strings.Index(q, "}")
+	if !strings.HasPrefix(q, "{") || i < 0 || strings.Count(q, "{") != strings.Count(q, "}") {
+		return false
+	}
+	switch strings.TrimSpace(q[i+1:]) {
+	case "| json", "| logfmt", `| line_format "{{.app}} {{.series}}"`:
+		return true
+	}
+	return false
 }
